@@ -32,6 +32,9 @@ INVARIANTS = ['TypeOK', 'InvParsedOnePerNode', 'InvOnePerNode', 'InvSized', 'Inv
 
 SMALL = dict(maxhosts=3, orders=['asc', 'rot'], cores=[2], smt=[1, 2],
              gpus=[(0, ()), (2, ()), (2, (1,))], bcs=[(), (0,)], backups=[0, 1], agents=[0, 1, 2])
+# the full cross product of the thorough tier leaves out 'GPUs present, none blocked' (that
+# combination is crossed with every allocation shape in the parse sweep)
+FULL  = dict(SMALL, gpus=[(0, ()), (2, (1,))])
 LARGE = dict(maxhosts=4, orders=['asc', 'desc', 'rot'], cores=[2, 3], smt=[1, 2],
              gpus=[(0, ()), (2, (1,))], bcs=[(), (0,)], backups=[0, 1], agents=[0, 1, 2])
 
@@ -132,7 +135,7 @@ def run(chk, tier, seed):
 
     # ---- 1. design model, exhaustive; the explored inputs drive the rig ---------
     cases = []
-    sweeps = [(SMALL, 'parse'), (SMALL, 'filter')] if quick else [(SMALL, 'full')]
+    sweeps = [(SMALL, 'parse'), (SMALL, 'filter')] if quick else [(FULL, 'full'), (SMALL, 'parse')]
     for scope, sweep in sweeps:
         res = tlc.run('RMNodes', 'MC', 'MC.cfg', workers=w, timeout=1500,
                       extra_files=mc_files(scope, sweep, print_cases=True))
@@ -180,7 +183,8 @@ def run(chk, tier, seed):
 
     # ---- 4. real resource managers on every input, monitor on every trace --------
     # (TLC's workers print in any order: fix it, so that reports do not depend on it)
-    cases.sort(key=lambda c: [str(c[k]) for k in R.FIELDS])
+    uniq  = {tuple(str(c[k]) for k in R.FIELDS): c for c in cases}
+    cases = [uniq[k] for k in sorted(uniq)]
     traces = drive(chk, cases, tier)
     for tr in traces[:1] + [t for t in traces if t['in']['rm'] == 'LSF' and t['in']['pseudo'] == 'both'
                             and t['in']['agents'] and len(t['in']['hosts']) == 3][:1]:
